@@ -42,7 +42,7 @@ RdrViol(r, b) ==
   {<<cx.id, "CharConservation", r>> : x \in IF CharConservationR(b) THEN {} ELSE {1}} \cup
   {<<cx.id, "Progress", r>> : x \in IF ProgressR(b) THEN {} ELSE {1}} \cup
   {<<cx.id, "EofSound", r>> : x \in IF EofSoundR(b) THEN {} ELSE {1}}
-Note(V) == viol' = viol \cup V /\ (V \subseteq viol \/ PrintT(<<"TRACE-VIOLATION", V \ viol>>))
+Note(V) == viol' = viol \cup V /\ (IF V \subseteq viol THEN TRUE ELSE PrintT(<<"TRACE-VIOLATION", V \ viol>>))
 Step(r, b) == rd' = Put(r, b) /\ Note(RdrViol(r, b))
 
 TCall == /\ Ev("Call") /\ PC!Call(E.api, E.sc)
